@@ -85,3 +85,18 @@ func init() {
 		},
 	})
 }
+
+func init() {
+	register(&propSpec{
+		id: "C04",
+		explanation: "Structural necessary conditions of 'metadata, headers and trailers arrive intact': encoder and decoder use the same base64 encoding object, the same lower-cased '-bin' suffix predicate, and encode exactly where the other decodes (C04.1); per-key values are appended in order (C04.2); each of the metadata hops (request headers ×2, handler context ×2, stream headers ×3, stream trailers, unary reply headers/trailers, client Header()/Trailer()) goes through ToKeyValue/ToMetadata applied to the right source (C04.3); header metadata is attached only under ¬headersSent and the same branch sets the flag (C04.4); accumulation appends/joins, never replaces (C04.5). Byte exactness of values is NOT decided.",
+		ruleText:    "obligation = one converter site, hop, typestate guard or accumulation store; non-trivial = needed provenance or facts",
+		assumptions: baseAssumptions,
+		run: func(c *Ctx, thorough bool) {
+			c.guard("C04.1", func() { ruleConverterAgreement(c, "C04.1") })
+			c.guard("C04.3", func() { ruleMetadataHops(c, "C04.3") })
+			c.guard("C04.4", func() { ruleHeaderTypestate(c, "C04.4") })
+			c.guard("C04.5", func() { ruleAccumulation(c, "C04.5") })
+		},
+	})
+}
